@@ -270,7 +270,18 @@ fn barrier_inner(plan: &BarrierPlan) -> (Vec<FlushRec>, Vec<Ev>, Option<Value>) 
         q.append(IdEntry::new(gp, g));
         returned[n].fetch_add(1, Ordering::SeqCst);
         let snap = snapshot();
+        // requests made and abandoned (future dropped, un-polled or polled once) right before and
+        // after the one that is awaited: they sit in the same batch and must not change what the
+        // awaited one is owed
+        if (plan.seed >> g) & 1 == 1 {
+            drop(q.flush_async());
+        }
         let mut f = Box::pin(q.flush_async());
+        if (plan.seed >> (g + 4)) & 1 == 1 {
+            let mut a = Box::pin(q.flush_async());
+            let _ = poll_once(a.as_mut());
+            drop(a);
+        }
         let mut ready = false;
         let mut polls = 0u64;
         // poll until the writer is seen blocked at a gate, then some more
